@@ -265,28 +265,47 @@ def run(ck):
         if ci < 4:
             q1, q2, mq = (1, 2, 1) if ci < 2 else (3, 1, 2)
         only = None
+        xcfg = ""
         if ci >= ncfg:                  # unbalanced line on which only class 1 data is produced, with / without single-character ACK
             mode, sc, ns, al, only = "unb", (ci - ncfg) % 2, 1 + (ci - ncfg) // 2, 1, "class1"
+        if mode == "bal" and ci % 4 == 0:
+            xcfg = " idle=300"          # balanced stations supervise the idle line with test function frames (every 300 ms of silence)
         rounds, tick = 110, 70
         acts, info = gen_actions(rng, mode, ns, rounds, q1, q2, mq, heavy=(only is None), tests=(ci % 4 >= 2 and only is None), only=only)
+        if xcfg:
+            # silence in the middle (the idle supervision runs, a burst there makes a TEST frame fail), traffic again afterwards
+            acts = {r: a for r, a in acts.items() if r < 25}
+            ident = 5000
+            for r in range(72, 100, 3):
+                a_ = L.asdu(ident, 4, typ=30, cot=3)
+                acts.setdefault(r, []).append("enq1 s1 %s" % hx(a_)); info[a_] = ("s2m", 0, 1, ident); ident += 1
+                a_ = L.asdu(ident, 4, typ=45, cot=6)
+                acts.setdefault(r + 1, []).append("msend s1 %s" % hx(a_)); info[a_] = ("m2s", 0, 0, ident); ident += 1
         tag = "c%d.%s.%d.%d.%d" % (ci, mode, al, sc, ns)
         drain = 3 * ns * (q1 + q2 + mq + 2) + 20      # rounds needed to empty full queues after the last disturbance
-        base = L.exchange(mode, al, sc, ns, acts, rounds + drain, tick, q1=q1, q2=q2, mq=mq, tls=400)
+        base = L.exchange(mode, al, sc, ns, acts, rounds + drain, tick, q1=q1, q2=q2, mq=mq, tls=400, extra_cfg=xcfg)
         bout = runner.run_batch(hcs, [("b", base)])["b"]["out"]
         n = L.frames_in(bout)
         # frame index reached at 55 % of the rounds: losses are placed before it so that the rest of the script is undisturbed
         nlast = max(8, int(n * 0.6))
 
-        def add(kind, lose=()):
+        def add(kind, lose=(), acts=acts):
             lose = sorted(set(lose))
             sid = "%s.%s.%s" % (tag, kind, "_".join(map(str, lose[:5])))
             if sid in meta:
                 return
             # every lost frame can cost one acknowledgement / repeat / link-state timeout: give the line time to settle
-            scripts.append((sid, L.exchange(mode, al, sc, ns, acts, rounds + min(25 * len(lose), 300) + drain, tick, q1=q1, q2=q2, mq=mq, lose=lose, tls=400)))
+            scripts.append((sid, L.exchange(mode, al, sc, ns, acts, rounds + min(25 * len(lose), 300) + drain, tick, q1=q1, q2=q2, mq=mq, lose=lose, tls=400, extra_cfg=xcfg)))
             meta[sid] = dict(mode=mode, al=al, ns=ns, q1=q1, q2=q2, mq=mq, kind=kind, lose=lose, settled=len(lose) <= 12, quiet_rounds=int(rounds * 0.3))
             infos[sid] = info
         add("none")
+        if xcfg:
+            # a burst (link failure, possibly detected on a test frame) followed, after the re-establishment, by one more lost frame
+            acts_l = dict(acts)
+            acts_l[71] = acts_l.get(71, []) + ["losenext m", "losenext s1"]      # the first user data frame of either station after the silence is lost once
+            for a in range(1, n - 8, 3 if quick else 1):
+                add("burst+first-data", list(range(a, a + 9)), acts=acts_l)
+            add("first-data", [], acts=acts_l)
         step = max(1, nlast // (40 if quick else 250))
         for k in range(1, nlast, step):
             add("single", [k])
